@@ -37,6 +37,7 @@ package agreement
 //	DL node gen round period step nap dl=<ns> dltype fastdl=<ns> vt=<ns>                       after the synchrony point: whenever a node's player triple or deadline changed
 //	FIRE node kind=<t|f> round period step vt=<ns>                                              a timer fired in the synchronous phase
 //	SYNCEND decisions=<n in the synchronous phase> done=<0|1> vt=<ns>
+//	PIPELINE node gen round period step fresh freshperiod freshstep val what event     monitor ACTED-ON-FRESHEST (see c05AfterHandle), whole run
 //
 // The monitors (every live honest node calls EnsureBlock for `target` — and every earlier round it lacks — within K periods
 // and within the step budget; deadlines increase; no panic; the C01 acceptor still accepts) are evaluated by checks/C05.py on
@@ -605,10 +606,70 @@ func (c *c05Run) execute() {
 	}
 }
 
+// c05AfterHandle: NetDrive's hook plus the monitor ACTED-ON-FRESHEST on the state the real code leaves after every handle: the
+// freshest threshold event known to the vote tracker of the player's round has been acted on —
+//
+//	next threshold of period q  ⇒ player.Period > q          (handleThresholdEvent → enterPeriod(q+1))
+//	soft / cert threshold of q  ⇒ player.Period ≥ q          (fast-forward)
+//	cert threshold for v and the payload of v assembled ⇒ the player has left the round (ensureAction)
+//
+// — also when the threshold was collected while the player was still in the previous round (`pipelined threshold events`,
+// player.enterRound: the freshest bundle of the new round is handled right after entering it).  A lost pipelined event does not
+// show as "no progress" in a harness with a catch-up service (the node is carried on by its peers' ledgers), so the state is
+// monitored directly.  One PIPELINE line per (node, round).
+var c05PipelineSeen = map[string]bool{}
+
+func c05AfterHandle(s *Service, router *rootRouter, status *player, e externalEvent, a []action) {
+	ndAfterHandle(s, router, status, e, a)
+	v, ok := ndReg.Load(s)
+	if !ok {
+		return
+	}
+	n := v.(*ndNode)
+	rr := router.Children[status.Round]
+	if rr == nil || !rr.VoteTrackerRound.Ok {
+		return
+	}
+	f := rr.VoteTrackerRound.Freshest
+	if f.Round != status.Round {
+		return
+	}
+	what := ""
+	switch f.T {
+	case nextThreshold:
+		if status.Period <= f.Period {
+			what = "next-threshold-not-entered"
+		}
+	case softThreshold:
+		if status.Period < f.Period {
+			what = "soft-threshold-not-entered"
+		}
+	case certThreshold:
+		if ea, has := rr.ProposalStore.Assemblers[f.Proposal]; has && ea.Assembled {
+			what = "committable-certificate-not-committed"
+		} else if status.Period < f.Period {
+			what = "cert-threshold-not-entered"
+		}
+	}
+	if what == "" {
+		return
+	}
+	r := n.run
+	r.mu.Lock()
+	key := fmt.Sprintf("%p/%d/%d", r, n.id, status.Round)
+	if !c05PipelineSeen[key] {
+		c05PipelineSeen[key] = true
+		r.logLocked("PIPELINE node=%d gen=%d round=%d period=%d step=%d fresh=%d freshperiod=%d freshstep=%d val=%s what=%s event=%T", n.id, n.gen, status.Round, status.Period, status.Step,
+			f.T, f.Period, f.Step, ndTok(f.Proposal), what, e)
+	}
+	r.mu.Unlock()
+}
+
 func TestVerifC05(t *testing.T) {
 	t.Chdir(t.TempDir())
 	logging.Base().SetOutput(io.Discard)
 	ndInstallHooks()
+	verifNDAfterHandle = c05AfterHandle
 	defer func() { verifNDAtStart, verifNDAfterHandle = nil, nil }()
 	out := ndOpenFiles()
 	defer out.close()
